@@ -2,11 +2,15 @@ package world
 
 import (
 	"bytes"
+	"encoding/hex"
 	"encoding/json"
 	"fmt"
 	"net/http"
 	"net/http/httptest"
 	"strings"
+
+	"github.com/decred/dcrd/dcrec/secp256k1/v4"
+	"github.com/elnosh/gonuts/crypto"
 )
 
 // Structural mutations of valid requests, sent as hand-built JSON through the real HTTP handler
@@ -44,9 +48,17 @@ func (w *World) liveInput() map[string]any {
 }
 
 func (w *World) freshOutputJSON(amt uint64) map[string]any {
+	// a genuine blinded message that is not entered into the registry: the numbering of outputs must
+	// not depend on how many malformed requests were sent
 	ks := w.ActiveKeyset()
-	o := w.NewOutput("", "", ks.Real, amt)
-	return map[string]any{"amount": amt, "id": ks.Real, "B_": o.B_}
+	secret := hex.EncodeToString(w.rng.bytes(32))
+	rb := w.rng.bytes(32)
+	rb[0] &= 0x7f
+	B_, _, err := crypto.BlindMessage(secret, secp256k1.PrivKeyFromBytes(rb))
+	if err != nil {
+		panic(err)
+	}
+	return map[string]any{"amount": amt, "id": ks.Real, "B_": hex.EncodeToString(B_.SerializeCompressed())}
 }
 
 func (w *World) paidQuote() string {
